@@ -24,6 +24,9 @@ def initial_cache(seed, variant=0):
             'timestamp': 1_700_000_000.75, 'custom': (b'a', [b'nested', 1]), 'returned': True, 'E': [b'e'], 'P': b'p',
             'ts_threshold': 5, 'IR': [b'ir'], 'x': b'secret', 's': 1.5, b'k': [b'\x01'],
         }
+    if variant == 3:     # mutable byte containers supplied by the embedder (bytearray sigfields, list / dict values)
+        return {'sigfield1': bytearray(b'hello '), 'sigfield2': bytearray(b'world'), 'sigfield3': b'!', 'sigfield8': bytearray(b'8'),
+                'timestamp': 1_700_000_000, 'custom': [bytearray(b'ab'), [b'x']], 'P': bytearray(b'p'), b'k': [b'\x01']}
     if variant == 2:
         return {'timestamp': '1700000000', 'sigfield1': [b'a', b'b'], 'custom': {'inner': [1, 2]}, 'returned': 0, b'k': [b'\x01']}
     return {
@@ -133,10 +136,13 @@ def attack_case(ctx, idxs):
     script = b''.join(st[i][1] for i in idxs)
     ctx.state((script,))
     judge(ctx, script, {'family': 'cache attack'}, ctx.seed)
+    if len(idxs) == 2 and not st[idxs[0]][0].startswith(('READ_CACHE', 'WRITE_CACHE')) and \
+            not st[idxs[1]][0].startswith(('READ_CACHE', 'WRITE_CACHE')):
+        judge(ctx, script, {'family': 'cache attack on typed initial cache'}, ctx.seed, variant=3)
     if len(idxs) == 1:
         # every single cache-touching path, also inside IF / TRY / EVAL, on initial caches whose protected
         # entries have other value types
-        for v in (1, 2):
+        for v in (1, 2, 3):
             for wrapname, wrapped in (('top', script), ('IF', op('TRUE') + op('IF') + len(script).to_bytes(2, 'big') + script),
                                       ('TRY', op('TRY_EXCEPT') + len(script).to_bytes(2, 'big') + script + b'\x00\x00'),
                                       ('EVAL', P(script) + op('EVAL') if len(script) < 1000 else script)):
